@@ -13,7 +13,7 @@ from ..engine import Space
 PROPERTY = "C20"
 LEVEL = "model_checking"
 VARIANTS = ["fast", "tsan"]
-RULE = ("pool of 31 programs (4 of them for VMs with different operator registrations, 2 with different config trees loaded); (a) each twice; (b) all ordered pairs x {Q's VM destroyed, alive, both VMs created and configured before either runs}; (c) controlled two-thread exploration for Q in the "
+RULE = ("pool of 33 programs (4 of them for VMs with different operator registrations, 2 with different config trees loaded); (a) each twice; (b) all ordered pairs x {Q's VM destroyed, alive, both VMs created and configured before either runs}; (c) controlled two-thread exploration for Q in the "
         "state-touching subset x all P with <=1 (quick) / <=2 (thorough) preemptions at instruction boundaries; TSan free-running over a pair "
         "subset; states = scheduling points / VM runs, transitions = executions; non-trivial = pair with Q != P")
 ASSUMPTIONS = [
@@ -70,10 +70,13 @@ POOL["config-lookup-a"] = CFG_LOOKUP
 POOL["config-lookup-b"] = CFG_LOOKUP
 POOL["configparse"] = ('private _c = configparse__ "class Other { v = 5; }; class IsoCfg { v = 6; class Sub { w = 60; }; };"; '
                        'diag_log str [getNumber (_c >> "IsoCfg" >> "v"), getNumber (_c >> "IsoCfg" >> "Sub" >> "w"), isClass (configFile >> "IsoCfg")]')
+# diagnostics are part of the output: what one instance was warned about says nothing about another one
+POOL["undefined-read"] = 'private _v = iso_undefined; private _w = _iso_undefined_local; for "_i" from 1 to 2 do { _v = ISO_Undefined }; diag_log str [isNil "_v", isNil "_w"]'
+POOL["undefined-read-other"] = 'private _v = iso_undefined; diag_log str [isNil "_v"]; 1 + "a"'
 POOL_CFG = {"config-lookup-a": CFG_A, "config-lookup-b": CFG_B}
 OPSET = {"words-are-variables": "basic", "synth-words-are-operators": "synth"}    # default: full
 NAMES = list(POOL)
-STATEFUL = ["tofixed", "counter", "define", "types", "words-are-operators", "synth-words-are-operators", "config-lookup-a", "globals-set", "groups-many", "marker", "error", "configparse"]
+STATEFUL = ["tofixed", "counter", "define", "types", "words-are-operators", "synth-words-are-operators", "config-lookup-a", "globals-set", "groups-many", "marker", "error", "configparse", "undefined-read"]
 
 
 def run_vm_sequence(ws, seq, prepared=False):
